@@ -548,6 +548,44 @@ func ruleScatterPlacesEveryPeer(c *Ctx) {
 		ci, ok := x.(ssa.CallInstruction)
 		return ok && ci.Common().StaticCallee() == helper
 	}
+	// (0) every peer of the region is put into a group (ordinary or some special engine): a peer left out of the
+	// grouping is left out of the target and the operator removes it
+	getPeers := F(P.Method("server/core", "RegionInfo", "GetPeers"))
+	nG := 0
+	for _, l := range loopsOf(sr) {
+		// the loop whose range is region.GetPeers(): its header's predecessor outside the loop evaluated GetPeers
+		overPeers := false
+		for _, p := range l.header.Preds {
+			if l.blocks[p] {
+				continue
+			}
+			for _, ins := range p.Instrs {
+				if isCallTo(ins, getPeers) {
+					overPeers = true
+				}
+			}
+		}
+		if !overPeers {
+			continue
+		}
+		nG++
+		grouped := everyIterationCalls(l, func(x ssa.Instruction) bool {
+			mu, ok := x.(*ssa.MapUpdate)
+			if !ok {
+				return false
+			}
+			pt, isPtr := mu.Value.Type().Underlying().(*types.Pointer)
+			if !isPtr {
+				return false
+			}
+			nn := namedOf(pt.Elem())
+			return nn != nil && nn.Obj().Name() == "Peer"
+		})
+		c.Check(grouped, rule, fmt.Sprintf("grouping loop #%d of %s", nG, fnName(sr)), "every peer of the region is put into a group that is placed later (ordinary or its special engine)", P.pos(sr.Pos()), "an iteration can pass without filing the peer")
+	}
+	if nG == 0 {
+		c.Undec(rule, "loop over region.GetPeers() in "+fnName(sr), "found", P.pos(sr.Pos()), "")
+	}
 	// (1) inside the helper: each peer visited is filed in the target map
 	n := 0
 	helperLoops := loopsOf(helper)
